@@ -35,6 +35,10 @@ for d in sorted(glob.glob(f'{root}/seeded/*/meta.json')):
     caught = 'exit=1' in last
     missed_before = any('exit=0' in r or 'exit=2' in r for r in own[:-1])
     keys = re.findall(r'key=(\S+)', last)[:3]
+    if not keys and caught:
+        for r in reversed(own):
+            if 'exit=1' in r and 'key=' in r:
+                keys = re.findall(r'key=(\S+)', r)[:3]; break
     if caught:
         verdict = "caught" + (" (after strengthening; an earlier run missed it)" if missed_before else "")
     elif cross:
